@@ -69,6 +69,7 @@ ASSUMPTIONS = [
 ]
 LEANCHECK_MODULES = ["Y0.Model.TrDsl", "Y0.Model.Trso", "Y0.Props.C05", "Y0.Props.C06Transport"]
 EXHAUSTIVE = {"quick": False, "thorough": False}
+ESCALATED_TIER = "escalated"   # generator budget when an anchored source file changed since the last integration
 
 # ------------------------------------------------------------------------------------------------ corpus
 
@@ -243,8 +244,8 @@ def _well_formed(e):
 
 def cases(rng: random.Random, tier: str):
     out = [json.loads(json.dumps(c)) for c in CORPUS]
-    quick = tier != "thorough"
-    n_rand, n_pert, n_mal, n_help = (6000, 2500, 200, 2500) if quick else (60000, 25000, 1000, 15000)
+    n_rand, n_pert, n_mal, n_help = {"quick": (6000, 2500, 200, 2500), "escalated": (16000, 7000, 400, 6000)}.get(
+        tier, (60000, 25000, 1000, 15000))
     for _ in range(n_rand):
         out.append(_rand_identify(rng, 6 if rng.random() < 0.35 else 5))
     seeds = [c for c in CORPUS if "malformed" not in c]
